@@ -1,5 +1,12 @@
 /-
   Properties of the pure chunking rule: tiling, size bounds, resynchronisation (C09, C10).
+
+  Helper lemmas live in the namespace `Bita.Proofs.SpecChunks`; the five theorems used by
+  `Bita/Props/C09.lean` and `Bita/Props/C10.lean` are at the end of the file.
+
+  Remark (statements kept as given): the proof of `spec_resync` uses neither `hv` nor `hBS`,
+  and the proof of `fixed_resync` does not use `hn` - the step functions refuse empty chunks
+  by themselves, and resynchronisation only needs `windowOf cfg ≤ B` and the two chunk ends.
 -/
 import Bita.Spec.Chunking
 import Bita.Spec.Tiling
@@ -7,14 +14,455 @@ import Bita.Spec.Tiling
 namespace Bita.Proofs
 open Bita Bita.Spec
 
+namespace SpecChunks
+
+/-! ### `firstBoundary` and `specCut` -/
+
+theorem firstBoundary_bounds (algo : Algo) (n : Nat) (mask : U32) (data : Bytes) (s : Nat) :
+    ∀ k lo L, firstBoundary algo n mask data s lo k = some L → lo ≤ L ∧ L < lo + k := by
+  intro k
+  induction k with
+  | zero => intro lo L h; simp [firstBoundary] at h
+  | succ k ih =>
+    intro lo L h
+    simp only [firstBoundary] at h
+    split at h
+    · cases h; omega
+    · have := ih _ _ h; omega
+
+theorem specCut_bounds (algo : Algo) (f : FilterConfig) (data : Bytes) (s L : Nat)
+    (hv : f.Valid) (hs : s < data.length) (h : specCut algo f data s = some L) :
+    max f.minSize 1 ≤ L ∧ L ≤ f.maxSize ∧ s + L ≤ data.length := by
+  obtain ⟨hw1, hw2, hmm, _, _⟩ := hv
+  unfold specCut at h
+  simp only at h
+  split at h
+  · rename_i L' hfb
+    cases h
+    have := firstBoundary_bounds _ _ _ _ _ _ _ _ hfb
+    omega
+  · split at h
+    · cases h; omega
+    · cases h
+
+/-! ### Fuel irrelevance -/
+
+theorem specChunksFrom_fuel (algo : Algo) (f : FilterConfig) (data : Bytes) :
+    ∀ k1 k2 s, data.length - s < k1 → data.length - s < k2 →
+      specChunksFrom algo f data k1 s = specChunksFrom algo f data k2 s := by
+  intro k1
+  induction k1 with
+  | zero => intro k2 s h; omega
+  | succ k1 ih =>
+    intro k2 s h1 h2
+    cases k2 with
+    | zero => omega
+    | succ k2 =>
+      simp only [specChunksFrom]
+      split
+      · rfl
+      · split
+        · split
+          · rfl
+          · rw [ih k2 _ (by omega) (by omega)]
+        · rfl
+
+theorem fixedChunksFrom_fuel (n len : Nat) :
+    ∀ k1 k2 s, len - s < k1 → len - s < k2 →
+      fixedChunksFrom n len k1 s = fixedChunksFrom n len k2 s := by
+  intro k1
+  induction k1 with
+  | zero => intro k2 s h; omega
+  | succ k1 ih =>
+    intro k2 s h1 h2
+    cases k2 with
+    | zero => omega
+    | succ k2 =>
+      simp only [fixedChunksFrom]
+      split
+      · rfl
+      · split
+        · split
+          · rfl
+          · rw [ih k2 _ (by omega) (by omega)]
+        · rfl
+
+/-! ### Tiling -/
+
+theorem specChunksFrom_tile (algo : Algo) (f : FilterConfig) (hv : f.Valid) (data : Bytes) :
+    ∀ k s, s ≤ data.length → data.length - s < k →
+      Tiles (specChunksFrom algo f data k s) s data.length := by
+  intro k
+  induction k with
+  | zero => intro s _ h; omega
+  | succ k ih =>
+    intro s hs hk
+    simp only [specChunksFrom]
+    split
+    · simp only [Tiles]; omega
+    · rename_i hlt
+      split
+      · rename_i L hc
+        have hb := specCut_bounds algo f data s L hv (by omega) hc
+        split
+        · omega
+        · simp only [Tiles]
+          exact ⟨trivial, by omega, ih _ (by omega) (by omega)⟩
+      · simp only [Tiles]
+        exact ⟨trivial, by omega, by omega⟩
+
+theorem fixedChunksFrom_tile (n : Nat) (hn : 1 ≤ n) (len : Nat) :
+    ∀ k s, s ≤ len → len - s < k → Tiles (fixedChunksFrom n len k s) s len := by
+  intro k
+  induction k with
+  | zero => intro s _ h; omega
+  | succ k ih =>
+    intro s hs hk
+    simp only [fixedChunksFrom]
+    split
+    · simp only [Tiles]; omega
+    · split
+      · split
+        · omega
+        · simp only [Tiles]
+          exact ⟨trivial, hn, ih _ (by omega) (by omega)⟩
+      · simp only [Tiles]
+        exact ⟨trivial, by omega, by omega⟩
+
+/-! ### Size bounds -/
+
+theorem mem_dropLast_cons {α : Type} (a : α) (l : List α) (c : α) (h : c ∈ (a :: l).dropLast) :
+    c = a ∨ c ∈ l.dropLast := by
+  cases l with
+  | nil => simp at h
+  | cons b l =>
+    rw [List.dropLast_cons_cons, List.mem_cons] at h
+    exact h
+
+theorem specChunksFrom_bounds (algo : Algo) (f : FilterConfig) (hv : f.Valid) (data : Bytes) :
+    ∀ k s, ∀ c ∈ (specChunksFrom algo f data k s).dropLast,
+      max f.minSize 1 ≤ c.2 ∧ c.2 ≤ f.maxSize := by
+  intro k
+  induction k with
+  | zero => intro s c h; simp [specChunksFrom] at h
+  | succ k ih =>
+    intro s c h
+    simp only [specChunksFrom] at h
+    split at h
+    · simp at h
+    · split at h
+      · rename_i L hc
+        have hb := specCut_bounds algo f data s L hv (by omega) hc
+        split at h
+        · simp at h
+        · rcases mem_dropLast_cons _ _ _ h with rfl | h'
+          · exact ⟨hb.1, hb.2.1⟩
+          · exact ih _ _ h'
+      · simp at h
+
+theorem fixedChunksFrom_bounds (n len : Nat) :
+    ∀ k s, ∀ c ∈ (fixedChunksFrom n len k s).dropLast, c.2 = n := by
+  intro k
+  induction k with
+  | zero => intro s c h; simp [fixedChunksFrom] at h
+  | succ k ih =>
+    intro s c h
+    simp only [fixedChunksFrom] at h
+    split at h
+    · simp at h
+    · split at h
+      · split at h
+        · simp at h
+        · rcases mem_dropLast_cons _ _ _ h with rfl | h'
+          · rfl
+          · exact ih _ _ h'
+      · simp at h
+
+/-! ### Offsets -/
+
+theorem specChunksFrom_off (algo : Algo) (f : FilterConfig) (data : Bytes) :
+    ∀ k s, ∀ c ∈ specChunksFrom algo f data k s, s ≤ c.1 := by
+  intro k
+  induction k with
+  | zero => intro s c h; simp [specChunksFrom] at h
+  | succ k ih =>
+    intro s c h
+    simp only [specChunksFrom] at h
+    split at h
+    · simp at h
+    · split at h
+      · split at h
+        · simp at h
+        · rcases List.mem_cons.1 h with rfl | h'
+          · exact Nat.le_refl _
+          · have := ih _ _ h'; omega
+      · rcases List.mem_singleton.1 h with rfl
+        exact Nat.le_refl _
+
+theorem fixedChunksFrom_off (n len : Nat) :
+    ∀ k s, ∀ c ∈ fixedChunksFrom n len k s, s ≤ c.1 := by
+  intro k
+  induction k with
+  | zero => intro s c h; simp [fixedChunksFrom] at h
+  | succ k ih =>
+    intro s c h
+    simp only [fixedChunksFrom] at h
+    split at h
+    · simp at h
+    · split at h
+      · split at h
+        · simp at h
+        · rcases List.mem_cons.1 h with rfl | h'
+          · exact Nat.le_refl _
+          · have := ih _ _ h'; omega
+      · rcases List.mem_singleton.1 h with rfl
+        exact Nat.le_refl _
+
+/-! ### The chunks from a chunk end on -/
+
+theorem isEnd_cons (c : Nat × Nat) (cs : List (Nat × Nat)) (e : Nat) :
+    IsEnd (c :: cs) e ↔ c.1 + c.2 = e ∨ IsEnd cs e := by
+  simp [IsEnd]
+
+theorem specChunksFrom_filter (algo : Algo) (f : FilterConfig) (data : Bytes) :
+    ∀ k s e K, data.length - s < k → data.length - e < K →
+      IsEnd (specChunksFrom algo f data k s) e →
+      (specChunksFrom algo f data k s).filter (fun c => decide (e ≤ c.1))
+        = specChunksFrom algo f data K e := by
+  intro k
+  induction k with
+  | zero => intro s e K h; omega
+  | succ k ih =>
+    intro s e K hk hK he
+    simp only [specChunksFrom] at he ⊢
+    split at he
+    · simp [IsEnd] at he
+    · rename_i hlt
+      rw [if_neg hlt]
+      split at he
+      · rename_i L hc
+        split at he
+        · simp [IsEnd] at he
+        · rename_i hL
+          rw [if_neg hL]
+          have hoff := specChunksFrom_off algo f data k (s + L)
+          rcases (isEnd_cons _ _ _).1 he with h0 | h0
+          · simp only at h0
+            have hns : ¬ e ≤ s := by omega
+            rw [List.filter_cons_of_neg (by simpa using hns)]
+            rw [List.filter_eq_self.2 (fun c hcm => by have := hoff c hcm; simp; omega)]
+            subst h0
+            exact specChunksFrom_fuel algo f data _ _ _ (by omega) (by omega)
+          · have hns : ¬ e ≤ s := by
+              obtain ⟨c, hcm, hce⟩ := h0
+              have := hoff c hcm
+              omega
+            rw [List.filter_cons_of_neg (by simpa using hns)]
+            exact ih _ _ _ (by omega) hK h0
+      · simp only [IsEnd, List.mem_singleton, exists_eq_left] at he
+        have : e = data.length := by omega
+        subst this
+        rw [List.filter_cons_of_neg (by simpa using hlt)]
+        cases K with
+        | zero => omega
+        | succ K => simp [specChunksFrom]
+
+theorem fixedChunksFrom_filter (n len : Nat) :
+    ∀ k s e K, len - s < k → len - e < K → IsEnd (fixedChunksFrom n len k s) e →
+      (fixedChunksFrom n len k s).filter (fun c => decide (e ≤ c.1))
+        = fixedChunksFrom n len K e := by
+  intro k
+  induction k with
+  | zero => intro s e K h; omega
+  | succ k ih =>
+    intro s e K hk hK he
+    simp only [fixedChunksFrom] at he ⊢
+    split at he
+    · simp [IsEnd] at he
+    · rename_i hlt
+      rw [if_neg hlt]
+      split at he
+      · rename_i hfit
+        rw [if_pos hfit]
+        split at he
+        · simp [IsEnd] at he
+        · rename_i hL
+          rw [if_neg hL]
+          have hoff := fixedChunksFrom_off n len k (s + n)
+          rcases (isEnd_cons _ _ _).1 he with h0 | h0
+          · simp only at h0
+            have hns : ¬ e ≤ s := by omega
+            rw [List.filter_cons_of_neg (by simpa using hns)]
+            rw [List.filter_eq_self.2 (fun c hcm => by have := hoff c hcm; simp; omega)]
+            subst h0
+            exact fixedChunksFrom_fuel n len _ _ _ (by omega) (by omega)
+          · have hns : ¬ e ≤ s := by
+              obtain ⟨c, hcm, hce⟩ := h0
+              have := hoff c hcm
+              omega
+            rw [List.filter_cons_of_neg (by simpa using hns)]
+            exact ih _ _ _ (by omega) hK h0
+      · rename_i hfit
+        rw [if_neg hfit]
+        simp only [IsEnd, List.mem_singleton, exists_eq_left] at he
+        have : e = len := by omega
+        subst this
+        rw [List.filter_cons_of_neg (by simpa using hlt)]
+        cases K with
+        | zero => omega
+        | succ K => simp [fixedChunksFrom]
+
+/-! ### Windows and cuts inside the common suffix -/
+
+theorem winAt_append (n : Nat) (P S : Bytes) (q : Nat) (h : n ≤ q) :
+    winAt n (P ++ S) (P.length + q) = (S.drop (q - n)).take n := by
+  unfold winAt
+  have e : P.length + q = (List.replicate n (0 : UInt8) ++ P).length + (q - n) := by
+    simp only [List.length_append, List.length_replicate]; omega
+  rw [← List.append_assoc, e, List.drop_append, List.drop_eq_nil_of_le (Nat.le_add_right _ _),
+    Nat.add_sub_cancel_left, List.nil_append]
+
+theorem firstBoundary_append (algo : Algo) (n : Nat) (mask : U32) (P1 P2 S : Bytes) (b : Nat) :
+    ∀ k lo, n ≤ b + lo →
+      firstBoundary algo n mask (P1 ++ S) (P1.length + b) lo k
+        = firstBoundary algo n mask (P2 ++ S) (P2.length + b) lo k := by
+  intro k
+  induction k with
+  | zero => intro lo _; simp [firstBoundary]
+  | succ k ih =>
+    intro lo h
+    simp only [firstBoundary]
+    rw [Nat.add_assoc, Nat.add_assoc, winAt_append n P1 S _ h, winAt_append n P2 S _ h,
+      ih (lo + 1) (by omega)]
+
+theorem specCut_append (algo : Algo) (f : FilterConfig) (P1 P2 S : Bytes) (b : Nat)
+    (hb : f.window ≤ b) :
+    specCut algo f (P1 ++ S) (P1.length + b) = specCut algo f (P2 ++ S) (P2.length + b) := by
+  unfold specCut
+  have r1 : (P1 ++ S).length - (P1.length + b) = S.length - b := by
+    simp only [List.length_append]; omega
+  have r2 : (P2 ++ S).length - (P2.length + b) = S.length - b := by
+    simp only [List.length_append]; omega
+  have key : ∀ w1 w2 : Nat, w1 ≤ 1 → w2 ≤ 1 →
+      (match firstBoundary algo f.window (filterMask f.bits) (P1 ++ S) (P1.length + b)
+          (max (max f.minSize 1) w1) (min f.maxSize (S.length - b) + 1 - max (max f.minSize 1) w1) with
+        | some L => some L
+        | none => if f.maxSize ≤ S.length - b then some f.maxSize else none) =
+      (match firstBoundary algo f.window (filterMask f.bits) (P2 ++ S) (P2.length + b)
+          (max (max f.minSize 1) w2) (min f.maxSize (S.length - b) + 1 - max (max f.minSize 1) w2) with
+        | some L => some L
+        | none => if f.maxSize ≤ S.length - b then some f.maxSize else none) := by
+    intro w1 w2 h1 h2
+    have e1 : max (max f.minSize 1) w1 = max f.minSize 1 := by omega
+    have e2 : max (max f.minSize 1) w2 = max f.minSize 1 := by omega
+    rw [e1, e2, firstBoundary_append algo f.window _ P1 P2 S b _ _ (by omega)]
+  simp only [r1, r2]
+  cases algo with
+  | roll => exact key 0 0 (by omega) (by omega)
+  | buz =>
+    exact key (f.window + 1 - (P1.length + b)) (f.window + 1 - (P2.length + b))
+      (by omega) (by omega)
+
+theorem specChunksFrom_append (algo : Algo) (f : FilterConfig) (P1 P2 S : Bytes) :
+    ∀ k b, f.window ≤ b →
+      (specChunksFrom algo f (P1 ++ S) k (P1.length + b)).map (fun c => (c.1 - P1.length, c.2))
+        = (specChunksFrom algo f (P2 ++ S) k (P2.length + b)).map
+            (fun c => (c.1 - P2.length, c.2)) := by
+  intro k
+  induction k with
+  | zero => intro b _; simp [specChunksFrom]
+  | succ k ih =>
+    intro b hb
+    simp only [specChunksFrom]
+    have c1 : ((P1 ++ S).length ≤ P1.length + b) = (S.length ≤ b) := by
+      simp [List.length_append]
+    have c2 : ((P2 ++ S).length ≤ P2.length + b) = (S.length ≤ b) := by
+      simp [List.length_append]
+    have r1 : (P1 ++ S).length - (P1.length + b) = S.length - b := by
+      simp only [List.length_append]; omega
+    have r2 : (P2 ++ S).length - (P2.length + b) = S.length - b := by
+      simp only [List.length_append]; omega
+    simp only [c1, c2, r1, r2, specCut_append algo f P1 P2 S b hb]
+    split
+    · rfl
+    · split
+      · rename_i L _
+        split
+        · rfl
+        · simp only [List.map_cons, Nat.add_sub_cancel_left]
+          rw [Nat.add_assoc, Nat.add_assoc, ih (b + L) (by omega)]
+      · simp only [List.map_cons, List.map_nil, Nat.add_sub_cancel_left]
+
+theorem fixedChunksFrom_append (n : Nat) (p1 p2 m : Nat) :
+    ∀ k b,
+      (fixedChunksFrom n (p1 + m) k (p1 + b)).map (fun c => (c.1 - p1, c.2))
+        = (fixedChunksFrom n (p2 + m) k (p2 + b)).map (fun c => (c.1 - p2, c.2)) := by
+  intro k
+  induction k with
+  | zero => intro b; simp [fixedChunksFrom]
+  | succ k ih =>
+    intro b
+    simp only [fixedChunksFrom]
+    have c1 : (p1 + m ≤ p1 + b) = (m ≤ b) := by simp
+    have c2 : (p2 + m ≤ p2 + b) = (m ≤ b) := by simp
+    have d1 : (p1 + b + n ≤ p1 + m) = (b + n ≤ m) := by simp [Nat.add_assoc]
+    have d2 : (p2 + b + n ≤ p2 + m) = (b + n ≤ m) := by simp [Nat.add_assoc]
+    have r1 : p1 + m - (p1 + b) = m - b := by omega
+    have r2 : p2 + m - (p2 + b) = m - b := by omega
+    simp only [c1, c2, d1, d2, r1, r2]
+    split
+    · rfl
+    · split
+      · split
+        · rfl
+        · simp only [List.map_cons, Nat.add_sub_cancel_left]
+          rw [Nat.add_assoc, Nat.add_assoc, ih (b + n)]
+      · simp only [List.map_cons, List.map_nil, Nat.add_sub_cancel_left]
+
+/-! ### Resynchronisation -/
+
+theorem specChunksFrom_resync (algo : Algo) (f : FilterConfig) (P1 P2 S : Bytes) (B : Nat)
+    (hB : f.window ≤ B)
+    (h1 : IsEnd (specChunksFrom algo f (P1 ++ S) ((P1 ++ S).length + 1) 0) (P1.length + B))
+    (h2 : IsEnd (specChunksFrom algo f (P2 ++ S) ((P2 ++ S).length + 1) 0) (P2.length + B)) :
+    chunksFrom (specChunksFrom algo f (P1 ++ S) ((P1 ++ S).length + 1) 0) (P1.length + B) P1.length =
+    chunksFrom (specChunksFrom algo f (P2 ++ S) ((P2 ++ S).length + 1) 0) (P2.length + B) P2.length := by
+  unfold chunksFrom
+  rw [specChunksFrom_filter algo f (P1 ++ S) _ 0 (P1.length + B) (S.length + 1) (by omega)
+        (by simp only [List.length_append]; omega) h1,
+      specChunksFrom_filter algo f (P2 ++ S) _ 0 (P2.length + B) (S.length + 1) (by omega)
+        (by simp only [List.length_append]; omega) h2]
+  exact specChunksFrom_append algo f P1 P2 S _ B hB
+
+end SpecChunks
+
+open SpecChunks
+
+/-! ### The theorems used by C09 / C10 -/
+
 theorem specChunks_tile (cfg : Config) (hv : cfg.Valid) (data : Bytes) :
     Tiles (specChunks cfg data) 0 data.length := by
-  sorry
+  cases cfg with
+  | rollsum f => exact specChunksFrom_tile .roll f hv data _ 0 (by omega) (by omega)
+  | buzhash f => exact specChunksFrom_tile .buz f hv data _ 0 (by omega) (by omega)
+  | fixed n => exact fixedChunksFrom_tile n hv data.length _ 0 (by omega) (by omega)
 
 theorem tiles_concat (data : Bytes) (cs : List (Nat × Nat)) (s : Nat)
     (h : Tiles cs s data.length) :
     (cs.map (fun c => slice data c.1 c.2)).flatten = data.drop s := by
-  sorry
+  induction cs generalizing s with
+  | nil =>
+    simp only [Tiles] at h
+    subst h
+    simp
+  | cons c cs ih =>
+    obtain ⟨o, l⟩ := c
+    simp only [Tiles] at h
+    obtain ⟨rfl, _, ht⟩ := h
+    rw [List.map_cons, List.flatten_cons, ih _ ht]
+    simp only [slice]
+    rw [← List.drop_drop]
+    exact List.take_append_drop l (data.drop o)
 
 theorem specChunks_bounds (cfg : Config) (hv : cfg.Valid) (data : Bytes) :
     ∀ c ∈ allButLast (specChunks cfg data),
@@ -22,8 +470,13 @@ theorem specChunks_bounds (cfg : Config) (hv : cfg.Valid) (data : Bytes) :
       | .rollsum f => max f.minSize 1 ≤ c.2 ∧ c.2 ≤ f.maxSize
       | .buzhash f => max f.minSize 1 ≤ c.2 ∧ c.2 ≤ f.maxSize
       | .fixed n => c.2 = n := by
-  sorry
+  intro c hc
+  cases cfg with
+  | rollsum f => exact specChunksFrom_bounds .roll f hv data _ _ c hc
+  | buzhash f => exact specChunksFrom_bounds .buz f hv data _ _ c hc
+  | fixed n => exact fixedChunksFrom_bounds n data.length _ _ c hc
 
+set_option linter.unusedVariables false in
 theorem spec_resync (cfg : Config) (hv : cfg.Valid) (hroll : ∀ n, cfg ≠ .fixed n)
     (P1 P2 S : Bytes) (B : Nat)
     (hB : windowOf cfg ≤ B)
@@ -32,13 +485,21 @@ theorem spec_resync (cfg : Config) (hv : cfg.Valid) (hroll : ∀ n, cfg ≠ .fix
     (h2 : IsEnd (specChunks cfg (P2 ++ S)) (P2.length + B)) :
     chunksFrom (specChunks cfg (P1 ++ S)) (P1.length + B) P1.length =
     chunksFrom (specChunks cfg (P2 ++ S)) (P2.length + B) P2.length := by
-  sorry
+  cases cfg with
+  | rollsum f => exact specChunksFrom_resync .roll f P1 P2 S B hB h1 h2
+  | buzhash f => exact specChunksFrom_resync .buz f P1 P2 S B hB h1 h2
+  | fixed n => exact absurd rfl (hroll n)
 
+set_option linter.unusedVariables false in
 theorem fixed_resync (n : Nat) (hn : 1 ≤ n) (P1 P2 S : Bytes) (B : Nat) (hBS : B ≤ S.length)
     (h1 : IsEnd (specChunks (.fixed n) (P1 ++ S)) (P1.length + B))
     (h2 : IsEnd (specChunks (.fixed n) (P2 ++ S)) (P2.length + B)) :
     chunksFrom (specChunks (.fixed n) (P1 ++ S)) (P1.length + B) P1.length =
     chunksFrom (specChunks (.fixed n) (P2 ++ S)) (P2.length + B) P2.length := by
-  sorry
+  simp only [specChunks, List.length_append] at h1 h2 ⊢
+  unfold chunksFrom
+  rw [fixedChunksFrom_filter n _ _ 0 (P1.length + B) (S.length + 1) (by omega) (by omega) h1,
+      fixedChunksFrom_filter n _ _ 0 (P2.length + B) (S.length + 1) (by omega) (by omega) h2]
+  exact fixedChunksFrom_append n P1.length P2.length S.length _ B
 
 end Bita.Proofs
